@@ -126,7 +126,7 @@ Qed.
 Lemma cmp_pin_verdict x io ic p :
   not_asg io -> wf_pin io p = true -> wf_pin ic p = true -> verdict (cmp_pin x x io ic p p).
 Proof.
-  intros Hna Hp Hp'. destruct p as [q b|[n|] q b| |]; try discriminate.
+  intros Hna Hp Hp'. destruct p as [q b|[n|] q b| | |]; try discriminate.
   - unfold cmp_pin. cbn [resolve]. apply inner_equiv_verdict.
   - destruct (wf_pin_out _ _ _ _ Hp) as [a [r [Ef [Er [Hin Hn]]]]].
     destruct (wf_pin_out _ _ _ _ Hp') as [a' [r' [Ef' [Er' [Hin' Hn']]]]].
@@ -350,7 +350,7 @@ Lemma wf_pin_splice l1 i i' l2 p :
   (exists r, i_ref i = Some r) -> (exists r', i_ref i' = Some r') \/ i_ref i' = i_ref i ->
   wf_pin (l1 ++ i :: l2) p = true -> wf_pin (l1 ++ i' :: l2) p = true.
 Proof.
-  intros Hn _ [r Hr] Hr'. destruct p as [q b|[n|] q b| |]; cbn; try tauto.
+  intros Hn _ [r Hr] Hr'. destruct p as [q b|[n|] q b| | |]; cbn; try tauto.
   pose proof (find_splice_keep l1 i i' l2 n Hn) as Hf.
   destruct (find (has_name i_name n) (l1 ++ i :: l2)) as [a|];
     destruct (find (has_name i_name n) (l1 ++ i' :: l2)) as [a'|]; try tauto; try discriminate.
@@ -362,7 +362,7 @@ Lemma wf_pin_splice_noref l1 i i' l2 p :
   i_name i' = i_name i -> i_ref i' = i_ref i ->
   wf_pin (l1 ++ i :: l2) p = true -> wf_pin (l1 ++ i' :: l2) p = true.
 Proof.
-  intros Hn Hr. destruct p as [q b|[n|] q b| |]; cbn; try tauto.
+  intros Hn Hr. destruct p as [q b|[n|] q b| | |]; cbn; try tauto.
   pose proof (find_splice_keep l1 i i' l2 n Hn) as Hf.
   destruct (find (has_name i_name n) (l1 ++ i :: l2)) as [a|];
     destruct (find (has_name i_name n) (l1 ++ i' :: l2)) as [a'|]; try tauto; try discriminate.
